@@ -35,14 +35,17 @@ class HarnessError(Exception):
 
 class Info:
     """What evaluate() returns for a case that held."""
-    __slots__ = ("nontrivial", "labels", "key", "counters", "sample")
+    __slots__ = ("nontrivial", "labels", "key", "counters", "sample", "units")
 
-    def __init__(self, nontrivial=False, labels=(), key=None, counters=None, sample=None):
+    def __init__(self, nontrivial=False, labels=(), key=None, counters=None, sample=None, units=None):
         self.nontrivial = bool(nontrivial)
         self.labels = tuple(labels)
         self.key = key            # hashable/JSON-able identity of the case for distinct counting
         self.counters = counters or {}
         self.sample = sample      # optional extra to show in evidence samples
+        # optional: a case that bundles several independent sub-checks (e.g. many blade pairs of one algebra) lists them
+        # here as (key, nontrivial) so that distinct counting is per sub-check, not per bundle
+        self.units = units
 
 
 def jsonable(x):
